@@ -152,7 +152,7 @@ def gen_cases(ctx):
         ens.append(g.enum("wf", f))
     for sh in REGION_SHAPES:
         ens.append(g.enum(sh))
-    n = ctx.n(100, 2000) + len(enumgen.load_corpus(PROP))
+    n = ctx.n(150, 2000) + len(enumgen.load_corpus(PROP))
     while len(ens) < n:
         r = ctx.rng.random()
         sh = "wf" if r < 0.9 else ctx.rng.choice(["neg", "big", "dupval", "dupname", "typedexpr"])
